@@ -1,7 +1,7 @@
 (* C03 — property theorems only. Each is closed by [exact] of a lemma proved in C03/Proofs*.v. *)
 From Coq Require Import List ZArith Bool String Lia.
 Import ListNotations.
-From AgileV Require Import C03.Model C03.ModelCnn C03.ModelNet C03.ModelMulti C03.Proofs C03.ProofsS C03.ProofsCnn C03.ProofsCnn2 C03.ProofsNet C03.ProofsMulti C03.ProofsShape.
+From AgileV Require Import C03.Model C03.ModelCnn C03.ModelNet C03.ModelMulti C03.Proofs C03.ProofsS C03.ProofsCnn C03.ProofsCnn2 C03.ProofsCnn3 C03.ProofsNet C03.ProofsMulti C03.ProofsShape.
 Local Open Scope Z_scope.
 
 (* ======================= EvolvableMLP ======================= *)
@@ -269,12 +269,48 @@ Theorem change_kernel_last_valid_cnn : forall st c a hl r1 r2,
 Proof. exact cnn_change_kernel_last_valid. Qed.
 Print Assumptions change_kernel_last_valid_cnn.
 
+(* ... and so does change_kernel on ANY layer when the new kernel is not larger than the old one (every later
+   feature map can only grow).  The remaining gap is: inner layer AND larger kernel. *)
+Theorem change_kernel_smaller_valid_cnn : forall st c a ks hl r1 r2,
+  cnn_ok st a -> 1 < zlen (channels a) ->
+  (let i := match hl with Some l => l | None => pick 1 (Z.min 4 (zlen (channels a))) r1 end in
+   let r := match hl with Some _ => r1 | None => r2 end in
+   let k' := match ks with Some k => k | None => pick 1 (znth (max_kernels (cs_h st) (cs_w st) (kernels a) (strides a)) i + 1) r end in
+   1 <= k' <= nth (Z.to_nat i) (kernels a) 0) ->
+  cnn_ok st (arch_of (cnn_step st c a (CChangeKernel ks hl) r1 r2)).
+Proof. exact cnn_change_kernel_smaller_valid. Qed.
+Print Assumptions change_kernel_smaller_valid_cnn.
+
 Theorem change_kernel_valid_refuted_cnn :
   exists st c a r1 r2,
     cnn_ok st a /\ cnn_meth_ok (CChangeKernel None None) /\
     cnn_valid st (arch_of (cnn_step st c a (CChangeKernel None None) r1 r2)) = false.
 Proof. exact cnn_change_kernel_valid_refuted. Qed.
 Print Assumptions change_kernel_valid_refuted_cnn.
+
+(* FINDING (current tree): such an architecture is reachable from a one-layer CNN with the default bounds by eleven
+   drawn mutations, each inside the range the method itself draws from, every intermediate architecture valid
+   (replayed on the real EvolvableCNN: RuntimeError "Kernel size can't be greater than actual input size"). *)
+Theorem change_kernel_unbuildable_reachable_refuted_cnn :
+  let st := {| cs_in_ch := 3; cs_h := 32; cs_w := 32; cs_out := 16; cs_layer_norm := false |} in
+  let c := {| c_min_layers := 1; c_max_layers := 6; c_min_ch := 32; c_max_ch := 256 |} in
+  let a0 := {| channels := [32]; kernels := [5]; strides := [1] |} in
+  cnn_ok st a0 /\ cnn_in_bounds c 9 1 a0 /\
+  Forall (fun o : cnn_op => cnn_meth_ok (fst (fst o))) unbuildable_chain /\
+  cnn_ok st (cnn_run st c a0 (removelast unbuildable_chain)) /\
+  kernels (cnn_run st c a0 unbuildable_chain) = [5; 7; 7; 7; 7; 5] /\
+  cnn_valid st (cnn_run st c a0 unbuildable_chain) = false.
+Proof. exact cnn_unbuildable_reachable. Qed.
+Print Assumptions change_kernel_unbuildable_reachable_refuted_cnn.
+
+(* With the candidate repair fixes/C03-cnn-change-kernel-fit.patch (change_kernel keeps the old kernel when a later layer
+   would no longer fit; modelled by cnn_step_fixed, NOT the current tree and therefore not tied by the correspondence
+   check) validity is preserved by all five methods. *)
+Theorem valid_inv_cnn_with_candidate_repair : forall st c a m r1 r2,
+  1 <= c_min_layers c -> 1 <= c_min_ch c -> cnn_meth_ok m ->
+  cnn_ok st a -> cnn_ok st (arch_of (cnn_step_fixed st c a m r1 r2)).
+Proof. exact cnn_valid_inv_fixed. Qed.
+Print Assumptions valid_inv_cnn_with_candidate_repair.
 
 Theorem add_layer_effective_cnn : forall st c a r1 r2,
   let mk := last (max_kernels (cs_h st) (cs_w st) (kernels a) (strides a)) 1 in
